@@ -14,6 +14,7 @@
 #include <Eigen/Core>
 #include <stdexcept>
 
+#include "../Util/TypeTraits.h"
 #include "UpperHessenbergSchur.h"
 
 namespace Spectra {
@@ -218,6 +219,19 @@ public:
         m_n = mat.rows();
         // Scale matrix prior to the Schur decomposition
         const Scalar scale = mat.cwiseAbs().maxCoeff();
+        // If scale=0, mat is a zero matrix (as in TridiagEigen): all eigenvalues are zero
+        // and the identity is a matrix of eigenvectors; mat / scale would be 0 / 0
+        if (scale < TypeTraits<Scalar>::min() * Scalar(10))
+        {
+            m_matT.resize(m_n, m_n);
+            m_matT.setZero();
+            m_eivec.resize(m_n, m_n);
+            m_eivec.setIdentity();
+            m_eivalues.resize(m_n);
+            m_eivalues.setZero();
+            m_computed = true;
+            return;
+        }
 
         // Reduce to real Schur form
         m_schur.compute(mat / scale);
